@@ -1,8 +1,147 @@
 import HapVerif.Model.C05
 import HapVerif.Drv.Common
+/-!
+Driver for C05.  Case line:
+
+  `C05 <api|e2e> <n> <shard of name 0>.<shard of name 1>... <op>,<op>,... => <obs>;<obs>;...`
+
+ops: `aX.C.S` AcquireBackend(name X) + fill content (cfg C, S empty slots) when newly created,
+`rX.Y..` RemoveAll, `c` Clear, `s` Shrink, `w` write ChangedShards, `k` Commit, `u` update cycle
+(api: Shrink; write; Commit done by the harness on the real `Backends`; e2e: the real
+`Instance.HAProxyUpdate`).  One observation per op:
+`items|add|del|changedShards|disk`, entries `name:cfg:slots` joined by `+`, files `k=entries`
+joined by `,`, `-` = empty.
+-/
 namespace HapVerif.C05
 open HapVerif.Drv
 
-def handle (_args : List String) (_impl : String) : Verdict := bad "C05-not-implemented"
+def showEnt (e : Ent) : String := s!"{e.name}:{e.cfg}:{e.slots}"
+def showEnts (l : List Ent) : String := if l.isEmpty then "-" else "+".intercalate (l.map showEnt)
+def showNats (l : List Nat) : String := if l.isEmpty then "-" else "+".intercalate (l.map toString)
+def showObs (o : Obs) : String :=
+  "|".intercalate [showEnts o.items, showEnts o.add, showEnts o.del, showNats o.changed,
+    if o.disk.isEmpty then "-" else ",".intercalate (o.disk.map fun f => s!"{f.1}={showEnts f.2}")]
+
+def parseEnt (s : String) : Option Ent :=
+  match s.splitOn ":" with
+  | [a, b, c] => do some { name := ← a.toNat?, cfg := ← b.toNat?, slots := ← c.toNat? }
+  | _ => none
+
+def parseEnts (s : String) : Option (List Ent) := parseList parseEnt s "+"
+
+def parseFile (s : String) : Option (Nat × List Ent) :=
+  match s.splitOn "=" with
+  | [k, es] => do some (← k.toNat?, ← parseEnts es)
+  | _ => none
+
+def parseObs (s : String) : Option Obs :=
+  match s.splitOn "|" with
+  | [i, a, d, c, f] => do
+    some { items := ← parseEnts i, add := ← parseEnts a, del := ← parseEnts d,
+           changed := ← parseList parseNat? c "+", disk := ← parseList parseFile f "," }
+  | _ => none
+
+def toFin (p : Nat) (s : String) : Option (Fin p) := do
+  let n ← s.toNat?
+  if h : n < p then some ⟨n, h⟩ else none
+
+def parseOp (p : Nat) (s : String) : Option (Op p) :=
+  if s = "c" then some .clear
+  else if s = "s" then some .shrink
+  else if s = "w" then some .write
+  else if s = "k" then some .commit
+  else if s = "u" then some .update
+  else if s.startsWith "a" then
+    match ((s.drop 1).toString).splitOn "." with
+    | [x, c, sl] => do some (.acquire (← toFin p x) { cfg := ← c.toNat?, slots := ← sl.toNat? })
+    | _ => none
+  else if s.startsWith "r" then
+    (parseList (toFin p) ((s.drop 1).toString) ".").map .removeAll
+  else none
+
+/-- model trace: one observation per op.  `gated` = end-to-end mode (`updateGated`) -/
+def trace {p : Nat} (gated : Bool) (sh : Sh p) : World p → Bool → List (Op p) → List Obs
+  | _, _, [] => []
+  | w, committed, op :: ops =>
+    let w' := match op, gated with
+      | .update, true => updateGated sh committed w
+      | _, _ => step sh w op
+    let committed' := match op with
+      | .update => true
+      | .commit => true
+      | .clear => false
+      | _ => committed
+    obsOf sh w' :: trace gated sh w' committed' ops
+
+def isUpdate {p : Nat} : Op p → Bool
+  | .update => true
+  | _ => false
+
+def isLoose {p : Nat} : Op p → Bool
+  | .write => true
+  | .commit => true
+  | _ => false
+
+/-- `Shrink` would leave no added backend: every add entry has a matching del entry -/
+def removeOnly (o : Obs) : Bool :=
+  o.add.all fun a => o.del.any fun d => d.name == a.name && d.cfg == a.cfg && decide (a.slots ≤ d.slots)
+
+/-- Spec on the implementation's trace: after every update of the disciplined prefix, every file
+holds exactly the items of its shard.  `prev` = observation before the op. -/
+def specTrace {p : Nat} (files : Nat) (shardOf : Nat → Nat) :
+    Obs → Bool → List (Op p) → List Obs → Option String
+  | _, _, [], _ => none
+  | _, _, _, [] => none
+  | prev, committed, op :: ops, o :: os =>
+    if isLoose op || !okObs prev op then none     -- outside the property's quantifier from here on
+    else
+      let r := if isUpdate op then
+          match diskClause files shardOf o with
+          | some "stale-backend-on-disk" =>
+            if committed && removeOnly prev then some "stale-backend-on-disk-noop-update"
+            else some "stale-backend-on-disk"
+          | r => r
+        else none
+      match r with
+      | some c => some c
+      | none =>
+        let committed' := match op with
+          | .update => true
+          | .clear => false
+          | _ => committed
+        specTrace files shardOf o committed' ops os
+
+def emptyObs (files : Nat) : Obs :=
+  { items := [], add := [], del := [], changed := [], disk := (List.range files).map fun k => (k, []) }
+
+/-- number of ops before the discipline is first left (model side, for the statistics column) -/
+def disciplined {p : Nat} (sh : Sh p) (ops : List (Op p)) : Bool := allOk sh {} ops
+
+def handle (args : List String) (impl : String) : Verdict :=
+  match args with
+  | [mode, n, shards, ops] =>
+    match n.toNat?, parseList parseNat? shards "." with
+    | some n, some shl =>
+      let p := shl.length
+      let shardOfN : Nat → Nat := fun i => shl.getD i 0
+      let sh : Sh p := { n := n, shardOf := fun x => shardOfN x.val }
+      match parseList (parseOp p) ops "," with
+      | none => bad "ops"
+      | some ops =>
+        if mode != "api" && mode != "e2e" then bad "mode" else
+        if impl = "PANIC" || impl.startsWith "PANIC" then
+          { model := "-", agree := false, oracle := some "panic-in-backends-api" }
+        else
+        let tr := trace (mode == "e2e") sh {} false ops
+        let m := ";".intercalate (tr.map showObs)
+        let disc := disciplined sh ops
+        match (impl.splitOn ";").mapM parseObs with
+        | none => { model := m, agree := false, oracle := some "unparsable-implementation-output" }
+        | some obs =>
+          { model := m, agree := m == impl && obs.length == ops.length
+            oracle := specTrace sh.files shardOfN (emptyObs sh.files) false ops obs
+            trivial := !disc || !(ops.any isUpdate) }
+    | _, _ => bad "args"
+  | _ => bad "C05"
 
 end HapVerif.C05
